@@ -555,6 +555,34 @@ func (u *Unit) runLit(fl *ast.FuncLit, k int) {
 		u.runInlineDefers(end, fr)
 	}
 	u.inlineStack, u.loopStack = savedStack, savedLoops
+	// `lit K ensures`: obligations at every return of the literal (result0.. = the returned values; locals of the literal by name)
+	if u.ct != nil && len(u.ct.LitEnsures[k]) > 0 {
+		rets := append([]*State{}, fr.rets...)
+		if end != nil && sig.Results().Len() == 0 {
+			rets = append(rets, end)
+		}
+		for _, rs := range rets {
+			names := map[string]Term{}
+			for i, rv := range fr.results {
+				t := u.readVar(rs, rv, token.NoPos)
+				names[fmt.Sprintf("result%d", i)] = t
+				if i == 0 {
+					names["result"] = t
+				}
+			}
+			env := &SpecEnv{u: u, st: rs, old: st, names: names, cs: u.cs, pkg: u.pkg.Types, own: true, scopePos: fl.Body.Rbrace, loopInv: true}
+			for i, cl := range u.ct.LitEnsures[k] {
+				nerr := len(u.specErrors)
+				env.outOfScope = false
+				g := env.evalBool(cl.Expr)
+				if env.outOfScope {
+					u.specErrors = u.specErrors[:nerr]
+					continue
+				}
+				u.emit(rs, "post", fmt.Sprintf("post#%d", i), fmt.Sprintf("function literal #%d ensures %s", k, cl.Text), fl.Body.Rbrace, g)
+			}
+		}
+	}
 }
 
 // run executes the function body symbolically.
